@@ -20,8 +20,8 @@ M("c08-script-continues-after-false", "R08.1", (EC, "            if !datamodel.e
                                                 "            datamodel.executeContent(fsm, *s);"))
 # ---------------------------------------------------------------------------------------------- R08.2
 M("c08-if-branches-swapped", "R08.2", (EC, "        if r {\n            if self.content != 0 {", "        if !r {\n            if self.content != 0 {"))
-M("c08-if-err-counts-as-true", "R08.2", (EC, "                warn!(\"Condition {} can't be evaluated. {}\", self.condition, e);\n                false",
-                                         "                warn!(\"Condition {} can't be evaluated. {}\", self.condition, e);\n                true"))
+M("c08-if-err-counts-as-true", "R08.2", (EC, "                warn!(\"Condition {} can't be evaluated. {}\", self.condition, e);\n                datamodel.internal_error_execution();\n                false",
+                                         "                warn!(\"Condition {} can't be evaluated. {}\", self.condition, e);\n                datamodel.internal_error_execution();\n                true"))
 M("c08-if-else-runs-then-content", "R08.2", (EC, "            for e in fsm.executableContent.get(&self.else_content).unwrap() {",
                                              "            for e in fsm.executableContent.get(&self.content).unwrap() {"))
 # ---------------------------------------------------------------------------------------------- R08.3
@@ -58,7 +58,7 @@ M("c08-raise-only-nonempty", "R08.6", (EC, "        get_global!(datamodel).enque
 # ---------------------------------------------------------------------------------------------- benign
 B("c08-benign-hoist-condition-result", (FSM, "            match datamodel.execute_condition(&cond) {\n                Ok(v) => v,",
                                         "            let evaluated = datamodel.execute_condition(&cond);\n            match evaluated {\n                Ok(v) => v,"))
-B("c08-benign-rename-if-locals", (EC, "        let r = datamodel\n            .execute_condition(&self.condition)", "        let cond_value = datamodel\n            .execute_condition(&self.condition)"),
+B("c08-benign-rename-if-locals", (EC, "        let r = match datamodel.execute_condition(&self.condition) {", "        let cond_value = match datamodel.execute_condition(&self.condition) {"),
   (EC, "        if r {\n            if self.content != 0 {", "        if cond_value {\n            if self.content != 0 {"))
 B("c08-benign-extract-error-helper", (FSM, "    fn conditionMatch(&mut self, datamodel: &mut dyn Datamodel, tid: TransitionId) -> bool {",
                                       "    fn condition_failed(datamodel: &mut dyn Datamodel) -> bool {\n        datamodel.internal_error_execution();\n        false\n    }\n\n    #[allow(non_snake_case)]\n    fn conditionMatch(&mut self, datamodel: &mut dyn Datamodel, tid: TransitionId) -> bool {"),
